@@ -644,6 +644,11 @@ def stratValue (s : Strat) (v : V) : Except Unit (Option V) :=
   | .sub r w => subValue r w v
   | .each r w => eachValue r w v
 
+/-- what the statement reads: the leaf's content — or, when the "field" is a setter pseudo-field, the
+    method value `x.SetF` (only storable in an `any`; shown as `?`) -/
+def readVal (N : List String) (c : Claim) (rl : Leaf) : V :=
+  if c.rd.isSet then .leaf "?" none else readLeaf N rl
+
 /-- one guarded statement: reading side `rs` with nil slots `N`, written side `ws` -/
 def execStmt (rs ws : SideSem) (N : List String) (mapperNil : Bool) (c : Claim) (w : WSt) : Except Unit WSt :=
   match evalGuard rs.ptrs N (readGuard rs.ptrs c.rd) with
@@ -654,7 +659,7 @@ def execStmt (rs ws : SideSem) (N : List String) (mapperNil : Bool) (c : Claim) 
     | some rl, some wl =>
       if !derefOk rs.ptrs N rl.path then .error ()
       else if !fnCallOk mapperNil c.strat then .error ()
-      else match stratValue c.strat (readLeaf N rl) with
+      else match stratValue c.strat (readVal N c rl) with
         | .error e => .error e
         | .ok none => .ok w
         | .ok (some v) =>
@@ -718,7 +723,7 @@ def Ty.mentionsSrc : Ty → Bool
     on the mapped struct types, a pointer conversion `*T(x)` does not parse as one, and the conversion
     target is printed package-qualified (`src.Label(x)`, or `<alias>.Label(x)`) even inside its own package -/
 def stmtCompiles (rs ws : Tree) (c : Claim) : Bool :=
-  (resolveField rs c.rd).isSome && (resolveField ws c.wr).isSome && !c.rd.isSet &&
+  (resolveField rs c.rd).isSome && (resolveField ws c.wr).isSome && (!c.rd.isSet || c.wr.ty == .basic "any") &&
   (match c.strat with
    | .sub _ _ | .each _ _ => (elemOf c.rd.ty).isStructNamed && (elemOf c.wr.ty).isStructNamed
    | .conv => !isPtrTy c.wr.ty && !c.wr.ty.mentionsSrc
@@ -727,7 +732,7 @@ def stmtCompiles (rs ws : Tree) (c : Claim) : Bool :=
 def argCompiles (rs : Tree) (a : CtorArg) : Bool :=
   match a.rd with
   | none => true
-  | some rd => (resolveField rs rd).isSome && !rd.isSet && !(a.strat == .conv && (isPtrTy a.p.ty || a.p.ty.mentionsSrc))
+  | some rd => (resolveField rs rd).isSome && (!rd.isSet || a.p.ty == .basic "any") && !(a.strat == .conv && (isPtrTy a.p.ty || a.p.ty.mentionsSrc))
 
 inductive Outcome where
   | panic
